@@ -159,7 +159,8 @@ def main():
                 pc = json.load(open(ck.replay))["case"]
                 pc["id"] = 0
                 pcases.append(pc)
-            BIG = [3 * limit // 4, limit - 1, limit, limit + 1, limit + step, 2 * limit, 2 * limit + 7, 5 * limit]
+            BIG = [3 * limit // 4, limit - 1, limit, limit + 1, limit + step, 2 * limit, 2 * limit + 7, 5 * limit,
+                   17 * limit + 5, 40 * limit]
             for i in range(0 if ck.replay else (24 if ck.tier == "quick" else 200)):
                 target = ["call_strict", "reply_typed", "call_value", "reply_value"][i % 4]
                 # (i) a short frame and the first part (>= the hook limit) of a long one arrive together, the
@@ -169,7 +170,7 @@ def main():
                 tail, _ = fg.frame(rng, target, kind="valid")
                 frames = [small, big, tail] if i % 2 else [big, small, big]
                 stream = fg.wire(frames)
-                first = len(frames[0]) + 1 + rng.choice([limit, limit + 1, limit + step + 3])
+                first = len(frames[0]) + 1 + rng.choice([limit, limit + 1, limit + step + 3, 16 * limit + 300, 30 * limit])
                 first = min(first, len(stream) - 2)
                 cut2 = rng.randrange(first + 1, len(stream))
                 ev = [["d", stream[:first].hex()], ["p"], ["d", stream[first:cut2].hex()], ["p"],
